@@ -15,14 +15,15 @@ import (
 
 // ---- environment stubs shared by the mobius harnesses ---------------------------------------------
 
-// bcrypt contract: hash = "H:" ++ password (a deterministic stand-in for H(p, salt));
-// Compare(h, p) == nil  <=>  h == "H:" ++ p.  Both are engine-only replacements (native replay uses real bcrypt).
+// bcrypt contract: hash = "H:" ++ salt(2 arbitrary bytes) ++ password (a deterministic stand-in for H(p, salt));
+// Compare(h, p) == nil  <=>  h = "H:" ++ any 2 bytes ++ p.  Both are engine-only replacements (native replay uses real bcrypt).
 func vStub_bcrypt_GenerateFromPassword(password []byte, cost int) ([]byte, error) {
-	return append([]byte("H:"), password...), nil
+	salt := vBytesN("bcrypt.salt", 2) // every hash is salted: two hashes of one password differ as strings
+	return append(append([]byte("H:"), salt...), password...), nil
 }
 
 func vStub_bcrypt_CompareHashAndPassword(hashedPassword, password []byte) error {
-	if string(hashedPassword) == "H:"+string(password) {
+	if vIsHashOf(string(hashedPassword), string(password)) {
 		return nil
 	}
 	return errors.New("mismatch")
@@ -448,4 +449,9 @@ func vStub_yaml_Unmarshal(in []byte, out interface{}) error {
 	a.Login = string(in[len(pre):end])
 	a.Name = "loaded"
 	return nil
+}
+
+// vIsHashOf: h is a (stub) hash of pw, whatever its salt.
+func vIsHashOf(h, pw string) bool {
+	return len(h) >= 4 && h[0] == 'H' && h[1] == ':' && h[4:] == pw
 }
